@@ -8,8 +8,29 @@ FAM = Family('boxed', 'boxed.cpp', noinline=NOINLINE)
 FORMS = {1: ('int', r'Cast_Helper_Inner<int>::cast'), 2: ('const int&', r'Cast_Helper_Inner<int const&>::cast'), 3: ('int&', r'Cast_Helper_Inner<int&>::cast'),
          4: ('int*', r'Cast_Helper_Inner<int\*>::cast'), 5: ('const int*', r'Cast_Helper_Inner<int const\*>::cast')}
 
+def dispatch_harness(tier):
+    from props.engine_family import FAM as ENG
+    rx = r'^chaiscript::Boxed_Value chaiscript::dispatch::dispatch<std::vector<std::shared_ptr<chaiscript::dispatch::Proxy_Function_Base>'
+    rc = r'Proxy_Function_Base::compare_type_to_param\('
+    stubs = [r'Proxy_Function_Base::operator\(\)', r'dispatch_with_conversions', r'Type_Conversions::converts']
+    g, info = core.translate(ENG, [rx, rc], stubs, tag='D4_probe', cuts=[r'Boxed_Value::~Boxed_Value'])
+    fb = [e.split('|')[0].strip() for e in info['ext'] if 'dispatch_with_conversions' in e]
+    if len(fb) != 1: raise core.BuildError('dispatch(): expected exactly one dispatch_with_conversions callee, found %s' % fb)
+    TIS = {'TI_BOXED_VALUE_OBJ': '_ZTIN10chaiscript11Boxed_ValueE', 'TI_BOXED_NUMBER_OBJ': '_ZTIN10chaiscript12Boxed_NumberE', 'TI_FUNCTION_OBJ': '_ZTISt10shared_ptrIKN10chaiscript8dispatch19Proxy_Function_BaseEE',
+           'TI_BAD_BOXED_CAST': '_ZTIN10chaiscript9exception14bad_boxed_castE', 'TI_ARITY_ERROR': '_ZTIN10chaiscript9exception11arity_errorE', 'TI_GUARD_ERROR': '_ZTIN10chaiscript9exception11guard_errorE'}
+    d = {'DISPATCH': core.csym(ENG, rx), 'FUNC_CALL': core.csym(ENG, r'^chaiscript::dispatch::Proxy_Function_Base::operator\(\)\('), 'CONVERTS': core.csym(ENG, r'^chaiscript::Type_Conversions::converts\('), 'FALLBACK': 'F_' + core.cname(fb[0])}
+    for k, v in TIS.items(): d[k] = '((char*)&g_%s)' % v
+    shapes = []
+    for nf in ((1, 2) if tier == 'quick' else (1, 2, 3)):
+        for na in (1, 2):
+            shapes.append(dict(d, NF=nf, NA=na, _tag='overloads=%d,args=%d' % (nf, na), _witness=('witness: overload chosen', 'witness: callee throws', 'witness: fallback') + (('witness: second candidate tried',) if nf >= 2 else ())))
+    h = Harness('D4.dispatch', ENG, [rx, rc], 'c06_dispatch.c', stubs=stubs, cuts=[r'Boxed_Value::~Boxed_Value'], shapes=shapes, opts=['--unwind', '10'], timeout=600, mem_gb=8,
+                inputs=['farity', 'fptype', 'fbeh', 'atype', 'conv_bit'], note='arity in {-1,1,2}, declared/argument types over an 8-type universe, conversion table and per-overload outcome symbolic')
+    h.need_globals = list(TIS.values())
+    return h
+
 def harnesses(tier):
-    hs = []
+    hs = [dispatch_harness(tier)]
     shapes = []
     for f, (nm, rx) in FORMS.items():
         wit = ['witness: cast refused', 'witness: cast accepted'] + (['witness: null object'] if f in (1, 2, 3) else [])
